@@ -4,6 +4,7 @@ import (
 	"bytes"
 	"fmt"
 	"net"
+	"reflect"
 
 	"github.com/free5gc/nas/nasType"
 
@@ -310,6 +311,16 @@ func c15Rules(c *core.Ctx, k *core.Case) {
 			}
 		}
 	}
+	{
+		var rx nasType.QoSRules
+		if err := rx.UnmarshalBinary(cloneB(want)); err == nil {
+			if changed, spare := appendProbeLists(reflect.ValueOf(&rx)); changed {
+				c.Fail(k, "append-reaches-neighbour:QoSRules", fmt.Sprintf("appending one element to each of the %d lists with spare capacity inside the parsed rules (result discarded) changed another part of the parsed value (input %s)", spare, hx(want)))
+			} else if spare > 0 {
+				c.Count("list_append_probes", int64(spare))
+			}
+		}
+	}
 	if err := back.UnmarshalBinary(cloneB(want)); err != nil || len(back) != len(model) {
 		c.Fail(k, "rules-unmarshal-into-reused-receiver", fmt.Sprintf("a second UnmarshalBinary into the same value gives %d rules (err %v), the list has %d", len(back), err, len(model)))
 		return
@@ -461,6 +472,16 @@ func c15Descs(c *core.Ctx, k *core.Case) {
 			_ = rx.UnmarshalBinary(other)
 			if probe.changed() {
 				c.Fail(k, "earlier-decoded-value-changed:QoSFlowDescs", "a description list copied out of the receiver variable changed when the variable was decoded into again (the new list was written over the array the earlier result still points to)")
+			}
+		}
+	}
+	{
+		var rx nasType.QoSFlowDescs
+		if err := rx.UnmarshalBinary(cloneB(want)); err == nil {
+			if changed, spare := appendProbeLists(reflect.ValueOf(&rx)); changed {
+				c.Fail(k, "append-reaches-neighbour:QoSFlowDescs", fmt.Sprintf("appending one element to each of the %d lists with spare capacity inside the parsed descriptions (result discarded) changed another part of the parsed value (input %s)", spare, hx(want)))
+			} else if spare > 0 {
+				c.Count("list_append_probes", int64(spare))
 			}
 		}
 	}
